@@ -1,9 +1,9 @@
 #!/bin/bash
-# usage: seedrun.sh <seeded-name> [property] [tier]
+# usage: seedrun.sh <seeded-name> [property] [tier] [unit]
 # Runs the property's check against a tree with the seeded change applied. The change is applied in
 # a scratch worktree of /repo's HEAD (gosym's -repo flag points the check at it), so /repo itself and
 # anything running against it are not disturbed; the committed evidence is left alone.
-name=$1; pid=${2:-${name%%-*}}; tier=${3:-quick}
+name=$1; pid=${2:-${name%%-*}}; tier=${3:-quick}; unit=${4:+-unit $4}
 wt=/tmp/seedrepo_$name
 cd /verif
 git -C /repo worktree remove --force $wt 2>/dev/null
@@ -11,7 +11,7 @@ git -C /repo worktree add -q --detach $wt HEAD || exit 3
 git -C $wt apply /verif/seeded/$name/patch.diff || { echo "patch does not apply"; git -C /repo worktree remove --force $wt; exit 3; }
 export GOFLAGS=-mod=mod GOPROXY=off GOSUMDB=off GOTOOLCHAIN=local
 cp evidence/$pid.json /tmp/evidence_$pid.$$.bak 2>/dev/null
-bin/gosym check -verif /verif -repo $wt -id $pid -tier $tier > /tmp/seedrun_$name.out 2>&1; code=$?
+bin/gosym check -verif /verif -repo $wt -id $pid -tier $tier $unit > /tmp/seedrun_$name.out 2>&1; code=$?
 cp /tmp/evidence_$pid.$$.bak evidence/$pid.json 2>/dev/null; rm -f /tmp/evidence_$pid.$$.bak
 git -C /repo worktree remove --force $wt
 grep -E "^(VIOLATION|INCONCLUSIVE|PASS|FAIL|KNOWN)" /tmp/seedrun_$name.out | cut -c1-300 | head -8
